@@ -9,14 +9,16 @@ from vlib import zlit
 
 REQ = "From QV Require Import Base.Util Bytes.ByteStr C36.Model."
 
-KNAMES = {1: "length-bytes", 2: "substr-null", 3: "substr-start", 4: "substr-neglen", 5: "concat-null",
-          6: "strpos-bytes", 7: "pad-null", 8: "pad-empty", 9: "pad-row0", 10: "split-null", 11: "split-oor",
+# ids 1 length-bytes, 6 strpos-bytes, 17 soundex-vowel, 18 translate-drop, 20 hex-lowercase, 28 shift-ge64, 29 shift-wrap32,
+# 31 dow-sunday were repaired in the engine (fixed: lines in known_findings.txt) and are no longer excusable.
+KNAMES = {2: "substr-null", 3: "substr-start", 4: "substr-neglen", 5: "concat-null",
+          7: "pad-null", 8: "pad-empty", 9: "pad-row0", 10: "split-null", 11: "split-oor",
           12: "split-nonpositive", 13: "split-emptydelim", 14: "chr-invalid", 15: "count-null",
-          16: "hamming-length", 17: "soundex-vowel", 18: "translate-drop", 19: "luhn-nondigit",
-          20: "hex-lowercase", 21: "decode-invalid", 22: "urlenc-chars", 23: "urldec-plus", 24: "urldec-invalid",
-          25: "tobase-radix", 26: "tobase-negative", 27: "base-row0", 28: "shift-ge64", 29: "shift-wrap32",
-          30: "bitcount-bits", 31: "dow-sunday", 32: "datediff-partial", 33: "dateadd-null", 34: "date-unit",
-          35: "greatest-null"}
+          16: "hamming-length", 19: "luhn-nondigit",
+          21: "decode-invalid", 22: "urlenc-chars", 23: "urldec-plus", 24: "urldec-invalid",
+          25: "tobase-radix", 26: "tobase-negative", 27: "base-row0",
+          30: "bitcount-bits", 32: "datediff-partial", 33: "dateadd-null", 34: "date-unit",
+          35: "greatest-null", 36: "shift-negative"}
 OTHER_CLASSES = ["smoke-null", "null-literal"]      # decided in the smoke test, not by a Coq predicate
 
 UNITS = {"day": 0, "week": 1, "month": 2, "quarter": 3, "year": 4}
@@ -113,15 +115,15 @@ def F(sql, sig, m, s, k="0", variadic=False):
 
 
 FUNCS = {
-    "length": F("length({0})", "s", "m_length {0}", "s_length {0}", "k_length {0}"),
+    "length": F("length({0})", "s", "m_length {0}", "s_length {0}"),
     "substr2": F("substr({0}, {1})", "si", "m_substr {cp} {0} {1} None", "s_substr {0} {1} None", "k_substr {cp} {0} {1} None"),
     "substr3": F("substring({0}, {1}, {2})", "sii", "m_substr {cp} {0} {1} (Some {2})", "s_substr {0} {1} (Some {2})",
                  "k_substr {cp} {0} {1} (Some {2})"),
     "replace": F("replace({0}, {1}, {2})", "sss", "m_replace {0} {1} {2}", "s_replace {0} {1} {2}"),
     "concat": F("concat({*})", "s", "m_concat [{;}]", "s_concat [{;}]", "k_concat [{;}]", variadic=True),
     "concat_ws": F("concat_ws({*})", "s", "m_concat_ws {0} [{;1}]", "s_concat_ws {0} [{;1}]", variadic=True),
-    "strpos": F("strpos({0}, {1})", "ss", "m_strpos {0} {1}", "s_strpos {0} {1}", "k_strpos {0} {1}"),
-    "position": F("position({1} IN {0})", "ss", "m_strpos {0} {1}", "s_strpos {0} {1}", "k_strpos {0} {1}"),
+    "strpos": F("strpos({0}, {1})", "ss", "m_strpos {0} {1}", "s_strpos {0} {1}"),
+    "position": F("position({1} IN {0})", "ss", "m_strpos {0} {1}", "s_strpos {0} {1}"),
     "reverse": F("reverse({0})", "s", "m_reverse {0}", "s_reverse {0}"),
     "lpad": F("lpad({0}, {1}, {2})", "sis", "m_pad true {0} {1} {r0_2}", "s_pad true {0} {1} {2}", "k_pad {0} {1} {2} {r0_2}"),
     "rpad": F("rpad({0}, {1}, {2})", "sis", "m_pad false {0} {1} {r0_2}", "s_pad false {0} {1} {2}", "k_pad {0} {1} {2} {r0_2}"),
@@ -137,10 +139,10 @@ FUNCS = {
     "repeat": F("repeat({0}, {1})", "si", "m_repeat {0} {1}", "s_repeat {0} {1}", "k_count {0} {1}"),
     "hamming_distance": F("hamming_distance({0}, {1})", "ss", "m_hamming {0} {1}", "s_hamming {0} {1}", "k_hamming {0} {1}"),
     "levenshtein_distance": F("levenshtein_distance({0}, {1})", "ss", "m_levenshtein {0} {1}", "s_levenshtein {0} {1}"),
-    "soundex": F("soundex({0})", "s", "m_soundex {0}", "s_soundex {0}", "k_soundex {0}"),
-    "translate": F("translate({0}, {1}, {2})", "sss", "m_translate {0} {1} {2}", "s_translate {0} {1} {2}", "k_translate {0} {1} {2}"),
+    "soundex": F("soundex({0})", "s", "m_soundex {0}", "s_soundex {0}"),
+    "translate": F("translate({0}, {1}, {2})", "sss", "m_translate {0} {1} {2}", "s_translate {0} {1} {2}"),
     "luhn_check": F("luhn_check({0})", "s", "m_luhn {0}", "s_luhn {0}", "k_luhn {0}"),
-    "to_hex": F("to_hex({0})", "h", "m_to_hex {0}", "s_to_hex {0}", "k_to_hex {0}"),
+    "to_hex": F("to_hex({0})", "h", "m_to_hex {0}", "s_to_hex {0}"),
     "to_hex_int": F("to_hex({0})", "i", "m_to_hex_int {0}", "None"),
     "from_hex": F("from_hex({0})", "s", "m_from_hex {0}", "s_from_hex {0}", "k_from_hex {0}"),
     "to_base64": F("to_base64({0})", "h", "m_to_base64 {0}", "s_to_base64 {0}"),
@@ -166,7 +168,7 @@ FUNCS = {
     "quarter": F("quarter({0})", "d", "dfun d_quarter {0}", "sdfun d_quarter {0}"),
     "day_of_year": F("day_of_year({0})", "d", "dfun d_doy {0}", "sdfun d_doy {0}"),
     "week": F("week({0})", "d", "dfun d_week {0}", "sdfun d_week {0}"),
-    "day_of_week": F("day_of_week({0})", "d", "m_day_of_week {0}", "s_day_of_week {0}", "k_day_of_week {0}"),
+    "day_of_week": F("day_of_week({0})", "d", "m_day_of_week {0}", "s_day_of_week {0}"),
     "last_day_of_month": F("last_day_of_month({0})", "d", "dfun d_last_day {0}", "sdfun d_last_day {0}"),
     "date_trunc": F("date_trunc({0}, {1})", "ud", "m_date_trunc {0} {1}", "s_date_trunc {0} {1}", "k_date_trunc {0} {1}"),
     "date_add": F("date_add({0}, {1}, {2})", "uid", "m_date_add {0} {1} {2}", "s_date_add {0} {1} {2}", "k_date_add {0} {1} {2}"),
@@ -379,7 +381,7 @@ def gen_args(rng, fn, safe):
         x = rng.choice([g_i64(rng), rng.randint(-130, 130), 2**(max(b, 2) - 1) - 1 if b <= 64 else 7, -(2**(max(min(b, 64), 2) - 1))])
         return [N(max(x, -(2**63 - 1))), N(b)]
     if fn.startswith("bitwise_") and "shift" in fn:
-        s = rng.choice([0, 1, 2, 31, 32, 33, 62, 63]) if safe else rng.choice([0, 1, 63, 64, 65, 100, -1, -64, 2**32, 2**32 + 1, -(2**32) + 3, 2**40])
+        s = rng.choice([0, 1, 2, 31, 32, 33, 62, 63, 63, 64, 64, 65, 100, -1, -64, 2**32, 2**32 + 1, -(2**32) + 3, 2**40, 2**63 - 1, -(2**63 - 1)])
         return [N(g_i64(rng)), N(s)]
     if fn in ("year", "month", "day", "quarter", "day_of_year", "week", "day_of_week", "last_day_of_month"):
         return [N(g_date(rng))]
@@ -472,8 +474,32 @@ def evaluate(cases):
     return impl, vals
 
 
-def gen_cases(rng, per_fn_lit, tables_per_fn, rows_per_table):
+# witnesses of the eight repaired classes: run first, on both paths, and must now give the documented value
+REGRESSIONS = [
+    ("length", ["é"]), ("length", ["a€😀́"]), ("strpos", ["éa", "a"]), ("position", ["€😀x", "x"]),
+    ("soundex", ["Bab"]), ("soundex", ["Tymczak"]), ("soundex", ["Ashcraft"]), ("soundex", ["Pfister"]),
+    ("translate", ["ab", "ab", "x"]), ("translate", ["abcda", "ad", "é"]), ("to_hex", ["ff"]), ("to_hex", ["00a1b2c3d4e5f6"]),
+    ("bitwise_left_shift", [1, 64]), ("bitwise_left_shift", [1, 2**32 + 1]), ("bitwise_right_shift", [-1, 64]),
+    ("bitwise_right_shift_arithmetic", [-8, 64]), ("bitwise_right_shift_arithmetic", [8, 100]), ("bitwise_left_shift", [1, 63]),
+    ("day_of_week", [0]), ("day_of_week", [19729]), ("day_of_week", [-719162]), ("day_of_week", [2932896]),
+]
+
+
+def regression_cases():
     cases = []
+    for fn, args in REGRESSIONS:
+        cases.append({"fn": fn, "args": args, "path": "lit", "regression": True})
+    by = {}
+    for fn, args in REGRESSIONS:
+        by.setdefault(fn, []).append(args)
+    for fn, rows in by.items():
+        for i, r in enumerate(rows):
+            cases.append({"fn": fn, "args": r, "path": "col", "table": f"reg_{fn}", "rows": rows, "row": i, "regression": True})
+    return cases
+
+
+def gen_cases(rng, per_fn_lit, tables_per_fn, rows_per_table):
+    cases = regression_cases()
     tno = 0
     for fn in FUNCS:
         for _ in range(per_fn_lit):
@@ -642,6 +668,10 @@ def run(ctx):
     ctx.cov["evaluations"] = len(cases)
     ctx.cov["distinct_nontrivial"] = len(nontrivial)
     ctx.cov["per_function_cases"] = per_fn
+    ctx.cov["regression_inputs"] = {"count": sum(1 for c in cases if c.get("regression")),
+                                    "all_meet_spec": all(o for c, o in zip(cases, ok) if c.get("regression")),
+                                    "what": "witnesses of the repaired classes length-bytes strpos-bytes soundex-vowel translate-drop "
+                                            "hex-lowercase shift-ge64 shift-wrap32 dow-sunday, literal and column path, run first"}
     ctx.cov["known_class_hits"] = per_class
     ctx.cov["input_distribution"] = {
         "paths": {"literal (one SELECT per case, constant path)": sum(1 for c in cases if c["path"] == "lit"),
@@ -678,7 +708,6 @@ def run(ctx):
              "scalar function name: one call, repeated (determinism), and one call per argument replaced by a typed NULL",
         assumptions=["strings are valid Unicode; byte-level str::find / starts_with / split on UTF-8 equal the code-point-level "
                      "operations of the model (UTF-8 is self-synchronising)",
-                     "the harness is built with overflow checks (dev profile): a shift amount >= 64 panics; release builds mask the amount",
                      "chrono::NaiveDate, the hex/base64/data-encoding/percent-encoding crates and str::replace/split are external: "
                      "their Gallina counterparts are specifications, tied by correspondence only",
                      "lpad/rpad sizes above 2^63 only (capacity-overflow panic) or below 1000: sizes in between would exhaust memory",
